@@ -397,6 +397,51 @@ fn k4_chain_api_order_and_short_circuit() {
     }
 }
 
+/// C19: the closure form of a hook (`impl BeforeRequest for F`) and `then_fn` (which must chain exactly like `then`):
+/// two closures chained with `then_fn` run in order, the second sees the first's context change, the first
+/// failure stops the chain and the handler, and the handler sees the final context.
+#[kani::proof]
+#[kani::stub(tracing::__macro_support::__is_enabled, crate::verif_kani_support::tracing_never_enabled)]
+#[kani::stub(tracing::__macro_support::MacroCallsite::interest, crate::verif_kani_support::tracing_interest_never)]
+#[kani::stub(tracing::Event::dispatch, crate::verif_kani_support::tracing_no_dispatch)]
+#[kani::unwind(8)]
+fn k4_then_fn_chains_closures_like_then() {
+    let log = Log::new();
+    let m0: u64 = kani::any();
+    let req: u32 = kani::any();
+    let (f1, m1, f2, m2): (bool, u64, bool, u64) = (kani::any(), kani::any(), kani::any(), kani::any());
+    let s = any_s(&log);
+    let (sf, sv) = (s.fail, s.val);
+    let lg = &log;
+    let c1 = move |ctx: &mut context::Context, _req: &u32| {
+        lg.borrow_mut().push(Ev::Before(1, marker(ctx)));
+        set_marker(ctx, m1);
+        let r = if f1 { Err(err()) } else { Ok(()) };
+        async move { r }
+    };
+    let c2 = move |ctx: &mut context::Context, _req: &u32| {
+        lg.borrow_mut().push(Ev::Before(2, marker(ctx)));
+        set_marker(ctx, m2);
+        let r = if f2 { Err(err()) } else { Ok(()) };
+        async move { r }
+    };
+    let out = run(before().then_fn(c1).then_fn(c2).serving(s).serve(any_ctx(m0), req));
+    let l = log.borrow();
+    kani::cover!(!f1 && !f2 && !sf, "reachable: everything passes");
+    assert!(l.evs[0] == Some(Ev::Before(1, m0)), "C19: first chained hook runs first");
+    if f1 {
+        assert!(l.n == 1 && out.is_err(), "C19: first failure stops the chain");
+    } else {
+        assert!(l.evs[1] == Some(Ev::Before(2, m1)), "C19: second hook sees the first hook's context change");
+        if f2 {
+            assert!(l.n == 2 && out.is_err(), "C19: second failure stops the chain, handler not invoked");
+        } else {
+            assert!(l.n == 3 && l.evs[2] == Some(Ev::Handler(m2, req)), "C19: handler runs last with the final context");
+            assert!(same(&out, !sf, sv), "C19: handler result returned unchanged");
+        }
+    }
+}
+
 /// C19: chain length 0: `before()` is the empty list; `before().serving(s)` behaves as `s`.
 #[kani::proof]
 #[kani::stub(
